@@ -124,6 +124,11 @@ def run(rep, tier, seed, replay, unordered=UNORDERED, pid=PID):
         qs = [(rnd.choice(["counter", "gauge", "observer"]), GG.random_name(rnd)) for _ in range(30)]
         # a third of the configurations arrive by reload on a mapper that held another one: the answer is the new configuration's alone
         before = [GM.load_op(GG.random_cfg(rnd, unordered=unordered))] if rnd.random() < 0.33 else []
+        if before and rnd.random() < 0.5:
+            # ... or the very same rules in the other ordering mode (nothing but defaults.glob_disable_ordering differs)
+            d1 = dict(cfg[0] or GM.defaults())
+            d1["disable_ordering"] = not d1["disable_ordering"]
+            before = [GM.load_op((d1, [dict(r) for r in cfg[1]]))]
         rcases.append(GM.case_line("none", 0, before + [GM.load_op(cfg)] + [GM.query_op(t, n) for t, n in qs]))
         rmeta.append((cfg, qs, len(before)))
     if not replay:
